@@ -25,10 +25,10 @@ RULE = ("Cases = (routine, options, matrix, precision 30..300 bits). Matrices of
         "||Q T Q^H - A||_F <= ||A||_F 2^(10-p) with T exactly upper triangular (H exactly zero below the first "
         "subdiagonal), ||Q^H Q - I||_F <= max(1, ||A||_F) 2^(10-p), |sum(E) - trace(A)| <= n ||A||_F 2^(10-p); "
         "eigsy/eighe/eigh: eigenvalues of type mpf, ascending (exact comparison), Q real for eigsy, columnwise residual "
-        "and orthonormality as above; eigenvalue-only calls (eig without vectors, eigvals_only, compute_uv=False) are "
-        "accepted when bit-identical to the certified values of the full call, else compared with them using Weyl's "
-        "bound 2 ||A||_F 2^(10-p) (Hermitian / singular values) or certified through an explicit vector v with "
-        "||(A - e I) v|| <= ||A||_F ||v|| 2^(10-p) found with the reference package at 3p+100 bits and verified exactly; "
+        "and orthonormality as above; eigenvalue-only calls: eig without vectors -- every value is certified through an "
+        "explicit vector v with ||(A - e I) v|| <= ||A||_F ||v|| 2^(10-p) (i.e. e is an eigenvalue of a matrix within the "
+        "stated residual of A); eigvals_only / compute_uv=False -- accepted when bit-identical to the certified values of "
+        "the full call, else compared with them using Weyl's bound 2 ||A||_F 2^(10-p); the certifying vector is found with the reference package (inverse iteration at (n+3)p+200 bits) and verified exactly; "
         "svd: shapes as documented for full_matrices, S of type mpf, non-negative, descending, "
         "||U diag(S) V - A||_F <= ||A||_F 2^(10-p), U^H U = 1 and V V^H = 1 within max(1,||A||_F) 2^(10-p); eig_sort: the "
         "output is exactly a permutation of the input eigenpairs (raw tuples), keys f(E) non-decreasing (exact "
@@ -228,6 +228,8 @@ def zm_from(M):
         raws.append(t)
     exps = [t[2] for pair in raws for t in pair if t[1]]
     e = min(exps) if exps else 0
+    if exps and max(t[2] + t[3] for pair in raws for t in pair if t[1]) - e > 400000:
+        return None               # absurd dynamic range (more than 1000 p bits): not a usable result, and not worth the memory
 
     def toint(t):
         if not t[1]:
@@ -763,7 +765,7 @@ class Ctx:
 
 
 def _nonfinite(cx, bucket, what):
-    cx.res.bad(bucket, "%s contains a non-finite or foreign entry; %s" % (what, cx.desc))
+    cx.res.bad(bucket, "%s contains a non-finite or foreign entry (or entries whose exponents differ by more than 400000); %s" % (what, cx.desc))
 
 
 def _unchanged(cx, fn, A, AZ, ow):
@@ -865,6 +867,9 @@ def _raws_list(E):
     return out
 
 
+_PRIMES = [2, 3, 5, 7, 11, 13, 17, 19, 23, 29, 31, 37, 41, 43, 47, 53]
+
+
 def _certify_eigenvalue(cx, lam_re, lam_im, lam_e):
     """find v with ||(A - lam I) v|| <= ||A|| ||v|| 2^(10-p) using the reference package, verify exactly"""
     import mpref
@@ -873,7 +878,7 @@ def _certify_eigenvalue(cx, lam_re, lam_im, lam_e):
     n = A.r
     old = rm.prec
     try:
-        rm.prec = 3 * cx.p + 100
+        rm.prec = (n + 3) * cx.p + 200        # a Jordan block of size k has sigma_min ~ delta^k for a shift delta off the eigenvalue
         B = rm.matrix(n, n)
         for i in range(n):
             for j in range(n):
@@ -882,14 +887,15 @@ def _certify_eigenvalue(cx, lam_re, lam_im, lam_e):
         nrm = rm.sqrt(rm.ldexp(rm.mpf(cx.a2[0]), cx.a2[1]))
         v = None
         for attempt in range(4):
-            shift = lam + (nrm + 1) * rm.ldexp(rm.mpf(attempt), -2 * cx.p - 20) * rm.mpc(3, 1)
+            shift = lam + (nrm if nrm else 1) * rm.ldexp(rm.mpf(attempt), -cx.p - 14) * rm.mpc(3, 1)   # 2^-20 of the tolerance
             C = B - shift * rm.eye(n)
             try:
-                y = rm.matrix([rm.mpf(1) + rm.mpf(i * i % 7) / 5 for i in range(n)])
-                for _ in range(2):
-                    y = rm.lu_solve(C, y)
+                # start vector with square roots of distinct primes: not orthogonal to any vector with rational entries
+                y = rm.matrix([rm.mpc(rm.sqrt(_PRIMES[2 * i]), rm.sqrt(_PRIMES[2 * i + 1])) for i in range(n)])
+                for _ in range(2):                    # inverse iteration with C^H C: converges to the right singular
+                    y = rm.lu_solve(C.H, y)           # vector of the smallest singular value
                     y = y / rm.norm(y)
-                    y = rm.lu_solve(C.H, y)
+                    y = rm.lu_solve(C, y)
                     y = y / rm.norm(y)
                 v = y
                 break
@@ -964,27 +970,28 @@ def _check_eig(mp, cx, A):
             return _nonfinite(cx, "nonfinite:eig", "EL")
         ok &= _pairs_left(cx, "resid:eig:left", EZ, UZ, "left eigenvector")
     if EL is None and ER is None:
-        # eigenvalues only: certified values of a full call, else explicit certificate
-        try:
-            E2, ER2 = mp.eig(A, left=False, right=True)
-            res.n += 1
-            full = _raws_list(E2)
-            VZ2 = zm_from(ER2)
-            EZ2 = zm_from(E2)
-        except Exception:
-            full, VZ2, EZ2 = None, None, None
-        same = full is not None and VZ2 is not None and EZ2 is not None and _raws_list(E) == full
-        if same:
-            if not _pairs_right(cx, "resid:eig:right", EZ2, VZ2, "right eigenvector (full call)"):
+        # eigenvalues only: every value must lie in the 2^(10-p)||A|| pseudospectrum, shown by an explicit vector
+        undecided = False
+        for i in range(n):
+            c = _certify_eigenvalue(cx, EZ.re[i], EZ.im[i], EZ.e)
+            if c is None:
+                undecided = True
+            elif not c:
+                res.bad("resid:eig:values_only", "eigenvalue %d = %s returned by eig(left=False, right=False) is not an "
+                        "eigenvalue of any matrix within ||A|| 2^(10-p) of A (no certifying vector); %s" % (i, E[i], cx.desc))
+        if undecided:
+            # fall back: accept values that are bit-identical to those of a full call whose eigenpairs pass the exact check
+            same = False
+            try:
+                E2, ER2 = mp.eig(A, left=False, right=True)
+                res.n += 1
+                VZ2, EZ2 = zm_from(ER2), zm_from(E2)
+                if VZ2 is not None and EZ2 is not None and _raws_list(E) == _raws_list(E2):
+                    same = _pairs_right(cx, "resid:eig:right", EZ2, VZ2, "right eigenvector (full call)")
+            except (RuntimeError, ZeroDivisionError):
                 same = False
-        if not same:
-            for i in range(n):
-                c = _certify_eigenvalue(cx, EZ.re[i], EZ.im[i], EZ.e)
-                if c is None:
-                    res.inconclusive = True
-                elif not c:
-                    res.bad("resid:eig:values_only", "eigenvalue %d = %s returned by eig(left=False, right=False) is not an "
-                            "eigenvalue of any matrix within ||A|| 2^(10-p) of A (no certifying vector); %s" % (i, E[i], cx.desc))
+            if not same:
+                res.inconclusive = True
     _trace(cx, "trace:eig", EZ)
     _known(cx, "eigval:eig", EZ)
     _check_sort(mp, cx, E, EL, ER)
